@@ -17,7 +17,9 @@ RULE = ('every orbital count within dense reach x both build paths x coefficient
         'EVERY one-hot coefficient tensor t=e_ij, v=e_ijkl (complete term alphabet); gauge transform: every L, every rotated pair i, '
         '5 unitaries x 2 coefficient kinds; non-trivial = L >= 2')
 BUDGET = {'quick': 500, 'thorough': 3600}
-KINDS = ['real', 'complex', 'symmetric', 'zero_padded', 'sparse', 'mixed_rc', 'mixed_cr', 'mixed_int']
+KINDS = ['real', 'complex', 'symmetric', 'zero_padded', 'sparse', 'mixed_rc', 'mixed_cr', 'mixed_int', 'units_tiny', 'units_large']
+# units: every coefficient times an exact power of two; the operator is linear in (t, v) and is judged after undoing the scaling
+UNITS = {'units_tiny': 2.0 ** -70, 'units_large': 2.0 ** 40}
 
 
 def coeffs(rng, L, kind):
@@ -44,6 +46,8 @@ def coeffs(rng, L, kind):
         return rng.normal(size=(L, L)) + 1j * rng.normal(size=(L, L)), rng.normal(size=(L,) * 4)
     if kind == 'mixed_int':     # integer one-body tensor, float two-body tensor
         return rng.integers(-3, 4, size=(L, L)), rng.normal(size=(L,) * 4)
+    if kind in UNITS:
+        return (rng.normal(size=(L, L)) + 1j * rng.normal(size=(L, L))) * UNITS[kind], rng.normal(size=(L,) * 4) * UNITS[kind]
     if kind == 'sparse':
         t, v = rng.normal(size=(L, L)), rng.normal(size=(L,) * 4)
         t = np.where(rng.uniform(size=t.shape) < 0.4, t, 0)
@@ -128,15 +132,16 @@ def run_case(case, ctx):
     ctx.calls += 1
     d = 4 if spin else 2
     ctx.check(mpo.nsites == L, 'number_of_sites', mpo.nsites)
-    M = dense.mpo_to_matrix(mpo.A)
+    unit = UNITS.get(case[4], 1.0) if kind0 == 'generic' else 1.0
+    M = dense.mpo_to_matrix(mpo.A) / unit
     ctx.obs(M)
-    ctx.close(M, Href, 'mpo_equals_second_quantized_operator', tol=1e-10)
+    ctx.close(M, Href / unit, 'mpo_equals_second_quantized_operator', tol=1e-10)
     # the other build path, where defined
     other_defined = (L >= 4) if not spin else (L >= 2)
     if opt and other_defined and kind0 == 'generic':
         m2 = build(spin, t, v, False)
         ctx.calls += 1
-        ctx.close(dense.mpo_to_matrix(m2.A), M, 'optimized_and_explicit_construction_agree', tol=1e-10)
+        ctx.close(dense.mpo_to_matrix(m2.A) / unit, M, 'optimized_and_explicit_construction_agree', tol=1e-10)
 
 
 def run_sparse_case(case, ctx):
